@@ -12,6 +12,7 @@ mod scen;
 use crate::core::coord;
 
 fn main() {
+    crate::core::sim::install_hash_source();
     let args: Vec<String> = std::env::args().collect();
     let seed: u64 = std::env::var("VERIF_SEED").ok().and_then(|s| s.parse().ok()).unwrap_or(20260925);
     let cmd = args.get(1).map(|s| s.as_str()).unwrap_or("");
@@ -40,6 +41,40 @@ fn main() {
                     2
                 }
             }
+        }
+        "probe-hash" => {
+            let k: u64 = args.get(2).and_then(|s| s.parse().ok()).unwrap_or(147827);
+            crate::core::sim::debug_hash_probe(crate::core::run::mix2(k, 4));
+            0
+        }
+        "probe-zero" => {
+            // debug: how often does a chunk holding both +0.0 and -0.0 in one Float64 column come back altered,
+            // as a function of the ahash key (which the parquet dictionary interner draws per column writer)?
+            use crate::scen::ingest::{batch, decode_parquet, row_strings, Row};
+            let n: u64 = args.get(2).and_then(|s| s.parse().ok()).unwrap_or(200_000);
+            let pw = cardinalsin::ingester::ParquetWriter::new();
+            let rows: Vec<Row> = [-0.0f64, 0.0].iter().enumerate().map(|(i, v)| Row { id: i as i64, ts: 1_700_000_000_000_000_000, metric: "cpu".into(), host: None, vi: None, vf: Some(*v), vu: None }).collect();
+            let b = batch(2, &rows);
+            let want = row_strings(&b);
+            let mut altered = 0u64;
+            let mut first = None;
+            let adversarial = args.get(3).map(|s| s == "adversarial").unwrap_or(false);
+            for k in 0..n {
+                crate::core::sim::reset_hash_source(crate::core::run::mix2(k, 4));
+                if adversarial {
+                    crate::core::sim::set_adversarial_hash(true);
+                }
+                let bytes = pw.write_batch(&b).expect("write");
+                let got: Vec<String> = decode_parquet(bytes).expect("decode").iter().flat_map(row_strings).collect();
+                if got != want {
+                    altered += 1;
+                    if first.is_none() {
+                        first = Some((k, got.clone()));
+                    }
+                }
+            }
+            println!("chunks written: {n}; chunks whose stored rows differ from the written rows: {altered}; first: {:?}; written: {:?}", first, want);
+            0
         }
         "audit" => {
             let prop = args.get(2).expect("property id");
